@@ -34,7 +34,7 @@ def main():
                     mod.run(chk)
         except vlib.Infrastructure:
             raise
-        except Exception:
+        except (Exception, vlib.ImplTimeout):
             # The correspondence itself broke down on this tree: the harness could not process what the implementation
             # did (an output of a kind no generated case of the unchanged tree ever produces).  The property is then no
             # longer SHOWN to hold - report it as such (no concrete failing input), naming the correspondence, instead of
